@@ -61,7 +61,8 @@ class Types:
 
     def of(self, m: Module, node: ast.AST) -> TypeDesc:
         key = f"{node.lineno}:{node.col_offset}:{node.end_lineno}:{node.end_col_offset}"  # type: ignore[attr-defined]
-        ent = self.tab.get(m.name, {}).get(key)
+        mname = getattr(node, "_jv_module", None)  # a node inlined from another module keeps that module's positions
+        ent = self.tab.get(m.name if mname is None else (("joserfc." + mname) if mname else "joserfc"), {}).get(key)
         if ent is None:
             return UNKNOWN
         return TypeDesc(tuple(ent.get("c", ())), bool(ent.get("a")), bool(ent.get("t")), bool(ent.get("f")))
